@@ -72,6 +72,26 @@ CLAIMED = {
                 text='Same answers for linear/binary span search and both evaluator families (derivative entries k+l <= order), for normalize_kv on/off under the affine parameter map '
                      '(points, derivatives scaled by a^-k, insertion, sampling grids, tessellation), for GEOMDL_CACHE_SIZE in {unset,1,16,1024} and for num_procs in {1,2,4}.',
                 note=_B_NOTE + ' Schedules of worker processes are NOT explored: the claim rests on the order-preserving contract of multiprocessing.Pool.map (A4); real pools are run once natively as a sanity run.'),
+    'C02': dict(category='other', technique='contracts on the derivative algorithms; per-shape exhaustive symbolic execution (symx) against the formal derivative of the spec position function',
+                text='Curve.derivatives / Surface.derivatives (both evaluator families, rational too, orders up to degree+2, entries k+l <= order) equal the formal derivatives d^k/du^k d^l/dv^l of the '
+                     'spec shape in QQ(knots, u, v, control points, weights); basis_function_ders(_one), derivative control points, hodograph constructors, tangent/normal (unit length and orthogonality modulo s*s = x).',
+                note=_B_NOTE + ' A4: math.sqrt by contract.'),
+    'C11': dict(category='other', technique='contracts on fitting.*; per-shape exhaustive symbolic execution (symx) with the real LU solve in exact arithmetic',
+                text='interpolate_curve/surface: requested degree and C(uk[i]) == Q[i] (S(uk[i],vl[j]) == Q[i][j]) at the chord-length / centripetal parameters; compute_params / compute_knot_vector(2) closed forms; '
+                     'approximate_curve: end points interpolated and interior control points satisfy the normal equations rebuilt independently; approximate_surface: corners interpolated.',
+                note=_B_NOTE + ' A4: math.sqrt by contract; A7: a solution of the normal equations minimises the functional. 3-7 data points symbolic/concrete, up to 40 concrete in thorough.'),
+    'C18': dict(category='other', technique='SMT-discharged VCs (pyvc) for the convex-combination facts through the real evaluator loop, bounding box and lemmas; per-shape symbolic execution (symx) for the object level',
+                text='Engine A, all degrees/sizes: basis functions are a non-negative partition of unity; the curve evaluators keep every coordinate half-space and (rational) homogeneous half-space that contains the '
+                     'control points; evaluate_bounding_box contains every control point. Engine B: evaluated point == sum lambda_i * find_ctrlpts points with lambda >= 0 summing to 1, inside bbox, clamped ends, length >= chord.',
+                note=_B_NOTE + ' The upper bound length <= control polygon length is excluded (variation diminishing). A7: triangle inequality.'),
+    'C16': dict(category='other', technique='SMT-discharged VCs (pyvc) for the vector/matrix helpers; per-shape exhaustive symbolic execution (symx) on fully symbolic n x n matrices for LU / solve / inverse / determinant / pivot and for history independence',
+                text='Fully symbolic matrices n = 1..3 (4 thorough): L*U == A, A*x == b, A*inv == I, determinant == Leibniz, P a permutation with mp == P*m; diagonally dominant and collocation matrices: lu_solve returns; '
+                     'after any routine matrix_identity(k) is still the identity, arguments untouched, and every routine still satisfies its contract (history independence); helpers equal their definitions for all sizes (Engine A).',
+                note=_B_NOTE + ' "LU always succeeds on collocation matrices" only on the bounded instances (total positivity not proved).'),
+    'C20': dict(category='other', technique='contracts on ray.intersect, is_left, wn_poly, convex_hull, voxelize, find_ctrlpts; per-shape exhaustive symbolic execution (symx) with independent spec predicates',
+                text='Crossing lines through a common symbolic point: INTERSECT with both rays evaluating to that point; parallel: COLINEAR; distance >= tol: SKEW; is_left == signed area; wn_poly <=> winding number != 0 '
+                     '(independent crossing count); convex_hull: subset, counter-clockwise, every point on or left of every edge; voxels filled iff a sampled point is inside, grid covers bbox; find_ctrlpts == active window.',
+                note=_B_NOTE + ' "agree with exact rational arithmetic" is vacuous under A1 (the model IS exact arithmetic).'),
 }
 
 _TODO = 'check not built yet in this revision (work in progress; see DESIGN.md section 7 for the planned contract)'
